@@ -41,19 +41,48 @@ func (c *Ctx) runInnerFirst(r *Report, rule string, pkg string, exceptions map[s
 		}
 		return v
 	}
+	// per-function lowering: a function that takes the function declaration, and
+	// the parameterless helpers it calls as statements of its own body (a
+	// prologue / epilogue factored out: `l.clearFunctionScope()`, also deferred)
+	perFuncSet := map[*types.Func]bool{}
 	for _, fn := range c.allFuncs() {
 		if fn.Pkg.Rel != pkg || fn.Obj == nil || fn.Decl.Body == nil {
 			continue
 		}
 		sig := fn.Obj.Type().(*types.Signature)
-		perFunc := false
 		for i := 0; i < sig.Params().Len(); i++ {
 			if p, ok := sig.Params().At(i).Type().(*types.Pointer); ok {
 				if nm := namedOf(p.Elem()); nm != nil && nm.Obj().Name() == "FunctionDecl" {
-					perFunc = true
+					perFuncSet[fn.Obj] = true
 				}
 			}
 		}
+		if !perFuncSet[fn.Obj] {
+			continue
+		}
+		for _, st := range fn.Decl.Body.List {
+			var call *ast.CallExpr
+			switch x := st.(type) {
+			case *ast.ExprStmt:
+				call, _ = x.X.(*ast.CallExpr)
+			case *ast.DeferStmt:
+				call = x.Call
+			}
+			if call == nil || len(call.Args) != 0 {
+				continue
+			}
+			if callee := calleeOf(fn.Pkg.Info, call); callee != nil {
+				if ci := c.funcByObj(callee); ci != nil && ci.Pkg == fn.Pkg {
+					perFuncSet[callee] = true
+				}
+			}
+		}
+	}
+	for _, fn := range c.allFuncs() {
+		if fn.Pkg.Rel != pkg || fn.Obj == nil || fn.Decl.Body == nil {
+			continue
+		}
+		perFunc := perFuncSet[fn.Obj]
 		info := fn.Pkg.Info
 		ast.Inspect(fn.Decl.Body, func(m ast.Node) bool {
 			if call, ok := m.(*ast.CallExpr); ok && perFunc {
